@@ -331,18 +331,24 @@ class NestedTransition(Transition):
                 is_final = True
             # a state which is tagged final and has just been entered triggers its own callbacks even though
             # (some of) its children are not final; it is not considered final by its parents
-            elif getattr(event_data.machine.scoped, 'final', False) and \
-                    self._just_entered(event_data, enter_partials):
+            elif self._scoped_final(event_data) and self._just_entered(event_data, enter_partials):
                 on_final_cbs.append(
                     partial(event_data.machine.callbacks, event_data.machine.scoped.on_final, event_data))
         # if a state is a leaf state OR has children not in a final state
-        elif getattr(event_data.machine.scoped, 'final', False):
+        elif self._scoped_final(event_data):
             # if the state itself is considered final and has recently been entered trigger callbacks
             # thus, a state with non-final children may still trigger callbacks if itself is considered final
             if self._just_entered(event_data, enter_partials):
                 on_final_cbs.append(partial(event_data.machine.callbacks, event_data.machine.scoped.on_final, event_data))
             is_final = True
         return on_final_cbs, is_final
+
+    @staticmethod
+    def _scoped_final(event_data):
+        # at the root scope 'scoped' is the machine itself which is never final (it may however own an unrelated
+        # attribute called 'final', e.g. the trigger of an event when the machine acts as its own model)
+        scoped = event_data.machine.scoped
+        return scoped is not event_data.machine and scoped.final
 
     @staticmethod
     def _just_entered(event_data, enter_partials):
